@@ -17,7 +17,7 @@ git -C /repo worktree prune
 git -C /repo worktree add -q --detach $SCRATCH/repo HEAD || exit 2
 rsync -a --exclude target --exclude .git --exclude replays --exclude evidence /verif/ $SCRATCH/verif/
 mkdir -p $SCRATCH/verif/evidence $SCRATCH/verif/replays
-sed -i "s#path = \"/repo\"#path = \"$SCRATCH/repo\"#" $SCRATCH/verif/sim/Cargo.toml
+sed -i "s#path = \"/repo\"#path = \"$SCRATCH/repo\"#" $SCRATCH/verif/sim/Cargo.toml $SCRATCH/verif/threads/Cargo.toml
 bad=0
 for id in $ids; do
   meta=/verif/seeded/$id/meta.json
